@@ -12,6 +12,7 @@ Decided on every CFG path:
   C26.run-count    func is invoked only when the fetch_sub(1) on timesToRun returned >= 1 and the task
                    is re-queued only when it returned > 1; a user function returning false stores
                    timesToRun = 0 and sets the cancelled flag.
+  C26.flags-monotone every write to TimedTaskImpl::flags, anywhere, is a fetch_or (bits are only set).
 """
 from lib.facts import Pos, const_val, expr_str, is_call, order_at_least, strip_casts, subexprs
 from lib.rules import atomic_ops, comparison_of, field_name, lvalue_path
@@ -148,3 +149,25 @@ def run(R):
                 continue
             R.ob("C26.run-count", fn, calls[0][1], ok, "a false return stores timesToRun = 0" if ok else "a false return does not stop further runs", sitekey="false-return", why="no further invocation after the function returns false")
     R.need("C26.run-count", n, 4, "run-count gates")
+    flags_monotone(R)
+
+
+def flags_monotone(R):
+    """C26.flags-monotone: the task's flag word carries Cancelled and Detached bits that are only ever
+    *set*. Every write to it, anywhere, is a fetch_or: a store / exchange / fetch_and (e.g. detach()
+    written as flags.store(kDetached)) erases a Cancelled bit that cancel() or a false return set, and
+    an invocation that was already handed to a pool then runs after cancel() has returned."""
+    F = R.F
+    FLAGS = "dispenso::detail::TimedTaskImpl::flags"
+    n = 0
+    for fn in F.fns:
+        if not fn.qname.startswith("dispenso::"):
+            continue
+        for a in atomic_ops(F, fn):
+            if a.field == FLAGS and a.is_write:
+                n += 1
+                ok = a.op == "fetch_or"
+                R.ob("C26.flags-monotone", fn, a.node, ok, "flags.%s in %s" % (a.op, fn.qname.split("::")[-1]) if ok else
+                     "flags.%s in %s overwrites the flag word: a Cancelled bit that is already set is lost" % (a.op, fn.qname.split("::")[-1]),
+                     sitekey="%s@%s" % (a.op, fn.root_parent().qname.split("::")[-1]), why="the function is never started after cancel() has returned or after it returned false")
+    R.need("C26.flags-monotone", n, 3, "writes to TimedTaskImpl::flags")
